@@ -37,8 +37,20 @@ static const int EDGE[] = {1,   1,   2,   3,   7,   8,   9,   15,  16,  17,  31,
 #define NEDGE ((int)(sizeof(EDGE) / sizeof(EDGE[0])))
 
 int GEN_MINDIM = 0;
+int GEN_WIDE = 0;
 static int gen_dim0(rng_t *r, int maxd);
 int gen_dim(rng_t *r, int maxd) {
+  if (GEN_WIDE && maxd > 600) {
+    /* wide mode: every dimension is either short (cheap) or wider than 8 machine words, so that the 8-way unrolled word loops
+     * of the library (Duff's devices, `ii + 8 <= width - 1` loops, the PLE strip of 8 words) go round more than once */
+    if (rng_chance(r, 1, 2)) return rng_int(r, 1, 100);
+    static const int W[] = {513, 514, 575, 576, 577, 600, 640, 641, 1023, 1024, 1025, 1087, 1088, 1089, 1100};
+    if (rng_chance(r, 1, 2)) {
+      int d = W[rng_int(r, 0, (int)(sizeof W / sizeof W[0]) - 1)];
+      if (d <= maxd) return d;
+    }
+    return rng_int(r, 513, maxd);
+  }
   int d = gen_dim0(r, maxd);
   if (GEN_MINDIM > 0 && d < GEN_MINDIM && maxd > GEN_MINDIM) d = GEN_MINDIM + d % (maxd - GEN_MINDIM + 1);
   return d;
